@@ -389,7 +389,15 @@ class CallMixin:
 
     def bi_isinstance(self, args, kwargs, st, node):
         v, c = args
-        names = [x.name for x in c.items] if isinstance(c, STuple) else [c.name] if isinstance(c, SClass) else None
+        def cname(x):
+            if isinstance(x, SClass):
+                return x.name
+            if isinstance(x, SFunc) and x.how in ('builtin', 'extfunc'):
+                return x.a[0]
+            return None
+        names = [cname(x) for x in c.items] if isinstance(c, STuple) else [cname(c)]
+        if any(n is None for n in names):
+            names = None
         if names is None:
             raise Unsupported('isinstance against %r' % (c,))
         h = self.externals.get('isinstance')
